@@ -236,12 +236,7 @@ def trace_validate(chk, lines, name="trace"):
     (chk.wd / "I_TraceSyntax.tla").write_text(mod)
     r = tlc.run(chk.wd, "I_TraceSyntax", cfg, workers=1, timeout=3000, env={"TRACE_FILE": str(f)})
     chk.note_tlc(f"Trace_Syntax/{name}", r, "trace-validation")
-    rej = [int(ln.split(",")[1]) for ln in r.stdout.splitlines() if ln.startswith('<<"REJECT"')]
-    if r.distinct - 1 != len(lines):
-        raise tlc.MachineryError(f"Trace_Syntax consumed {r.distinct - 1} of {len(lines)} lines\n" + r.stdout[-3000:])
-    if not r.ok and not rej:
-        raise tlc.MachineryError("Trace_Syntax failed without naming a line:\n" + r.stdout[-3000:])
-    return rej
+    return sorted(tlc.rejected(r, len(lines), "Trace_Syntax"))
 
 
 def run(chk: core.Check):
